@@ -196,4 +196,10 @@ example {R : Rounding} (hR : ContractExact R) (ambient : Nat) :
 /-- a backward start: first tick rate `-1` clears to `2^31 - 1` -/
 example : Fw.ltClear (-1) 0 = 2147483647 ∧ Fw.ltClear 0 0 = 0 ∧ Fw.ltClear 1 (-2) = 2147483647 := by decide
 
+/-- **argument type of the start accumulator, regenerated code**: an explicit start accumulator given as a float is the
+integer `int()` makes of it (truncation toward zero; the same integer for an integral float) — it is never mistaken for
+`"clear"`.  By computation on the regenerated definition (`rfl`). -/
+theorem C01_gen_acc_float (R : Rounding) (amb : Nat) (rate accel T : Py.Val) (q : Rat) :
+    Gen.move_dist_lt R amb rate accel T (.flt q) = Gen.move_dist_lt R amb rate accel T (.int (Py.intOfRat q)) := by rfl
+
 end Plotink
